@@ -432,7 +432,7 @@ def check(ctx):
         ctx.ob("graft", "floor:topic loop head", head is not None, nontrivial=False, msg=str(head))
         if head is None:
             continue
-        run_edges = gs.guard(hg, running, head)
+        run_edges = gs.frontier(hg, gs.guard(hg, running, head), head)
         ctx.ob("graft", "floor:backoff-running edge", len(run_edges) >= 1, nontrivial=False, msg=str(sorted(run_edges)))
         starts = gs.edge_targets(run_edges)
         region = hg.reachable(starts, stop_nodes=[head])
